@@ -28,6 +28,8 @@ def sql(e, q=""):
     k = e[0]
     if k == "col":
         return f"{q}{COLS[e[1]]}"
+    if k == "dref":      # reference to dimension number e[1] BY NAME (its expression e[2] is what the reference semantics sees)
+        return f"{q}d{e[1]}"
     if k == "lit":
         v = e[1]
         return "NULL" if v is None else ("'%s'" % v.replace("'", "''") if isinstance(v, str) else str(v))
@@ -58,8 +60,16 @@ def coq_val(v):
     return "(VStr %s)" % lib.coq_string(v)
 
 
+def sql_top(e, q=""):
+    """like sql() without the outermost parentheses (a definition written the way users write it: amount - discount)"""
+    t = sql(e, q)
+    return t[1:-1] if e[0] in ("add", "sub", "mul", "cmp", "and", "or") and t.startswith("(") and t.endswith(")") else t
+
+
 def coq(e):
     k = e[0]
+    if k == "dref":
+        return coq(e[2])
     if k == "col":
         return f"(Col {e[1]})"
     if k == "lit":
